@@ -81,10 +81,17 @@ class Grammar(qc.QGrammar):
         return None
 
 
+CLOCK_COHERENCE_NS = 20000
+
+
 def timer_verdicts(prog, hist):
     ev = hist.ev
     out = []
     kind, opv, idxv, valv, tidv = ev["kind"], ev["op"], ev["idx"], ev["val"], ev["tid"]
+    # the deadline is derived from a clock read on the calling thread, the handler reads the clock on a worker thread: on one CPU (F1/P1) the two
+    # reads are exactly comparable, across CPUs they are only comparable up to the machine's clock coherence (per-CPU TSC offsets of a few us were
+    # seen right after a VM restore). Stated tolerance for multi-CPU runs: 20 us.
+    tol = 0 if prog.cfg.get("mode") in (e3.MODE["F1"], e3.MODE["P1"]) else CLOCK_COHERENCE_NS
     for sid, S in prog.sources.items():
         if S["type"] != sc.T_TIMER:
             continue
@@ -143,11 +150,11 @@ def timer_verdicts(prog, hist):
                 if now is None:
                     continue
                 total += d
-                if now < earliest:
+                if now + tol < earliest:
                     out.append(Verdict("timer %d: handler invocation %d ran at %d ns on its clock, %d ns before the start time of the settings in force (set at event %d)" %
                                        (sid, inv, now, earliest - now, q), dict(kind="timer-early", epoch=k_)))
                     break
-                bound = (now - earliest) // interval + 1 if interval > 0 else 1
+                bound = (now + tol - earliest) // interval + 1 if interval > 0 else 1
                 if total > bound:
                     out.append(Verdict("timer %d: by invocation %d dispatch_source_get_data had reported %d fires in total but only %d interval boundaries of the settings in force (start+%d ns every %d ns) had passed" %
                                        (sid, inv, total, bound, 0, interval), dict(kind="timer-too-many-fires", epoch=k_, oneshot=(interval == 0))))
@@ -163,7 +170,7 @@ def timer_verdicts(prog, hist):
                 out.append(Verdict("dispatch_after block of op %d never ran" % o.id, dict(kind="after-never")))
             if n >= 1:
                 ran_at, earliest = int(valv[start[o.id]]), int(valv[call[o.id]])
-                if ran_at < earliest:
+                if ran_at + tol < earliest:
                     out.append(Verdict("dispatch_after block of op %d ran %d ns before its deadline on clock %d" % (o.id, earliest - ran_at, o.d), dict(kind="after-early", clock=o.d)))
     return out
 
@@ -189,7 +196,7 @@ class Check(sc.SCheck):
             "built); the fires reported so far never exceed the interval boundaries passed; one-shot timers report <= 1; after-blocks run exactly once; the harness blocks "
             "until every armed, uncancelled timer has fired, so a timer that never fires is a stuck witness. Non-trivial: >= 8 timers armed and a re-arm / cancel / "
             "replacement happened among them (part 2) or >= 8 records armed with a removal/update among them (part 1); distinct = distinct program texts / op sequences.")
-    assumptions = ["no clock is stepped during a run", "settings replaced from a foreign thread while the source is not suspended are not judged (an invocation already committed may legally follow the old ones)"]
+    assumptions = ["the timer clock is not stepped during a run; cross-thread clock comparisons carry a 20 us coherence tolerance in multi-CPU runs, none in single-CPU runs", "settings replaced from a foreign thread while the source is not suspended are not judged (an invocation already committed may legally follow the old ones)"]
     G = Grammar()
 
     def pre_run(self, rep, tier, seed):
